@@ -28,6 +28,13 @@ def run(env, tier, seed, broken=None):
     if tier == 'thorough':
         for t in itertools.product(FRAGS, repeat=3):
             texts.append(' '.join(t))
+    glue = ['1', '.', 'a', '"', '/', '*', '=', '<', '&', '|', '!', ';', '(', ')', '৫', '\n', '_', '@']
+    for n in (1, 2, 3):
+        for t in itertools.product(glue, repeat=n):
+            texts.append(''.join(t))
+    for pre in [PRINT + ' a + ', 'x = ', FUN + ' f(', IF + ' (', '{ ', 'a[', 'o.', 'f(1, ']:
+        for tail in ['1.', '1', '"s', '/*', 'a.', '1.5', '', '(', '{', '[', '-', '!']:
+            texts.append(pre + tail)
     # token sequences: depth-first, all of length <= 3 (4 in thorough), random of length 4..14
     for n in (3,) if tier == 'quick' else (3, 4):
         for t in itertools.product(TOKS, repeat=n):
